@@ -46,6 +46,14 @@ class HookScript:
         self.world.hook_calls[(self.wname, self.hname)] += 1
         self.world.hook_log.append((round(self.world.now(), 6), self.wname, self.hname, self.outcome,
                                     {k: v for k, v in kw.items() if k in ('pid', 'signum')}))
+        if '@' in self.outcome:
+            # 'false@3' / 'raise@2': that outcome on the n-th invocation only, true otherwise (a transient fault)
+            what, nth = self.outcome.split('@')
+            if self.world.hook_calls[(self.wname, self.hname)] != int(nth):
+                return True
+            if what == 'raise':
+                raise RuntimeError('scripted hook failure %s' % self.hname)
+            return what == 'true'
         if self.outcome == 'raise':
             raise RuntimeError('scripted hook failure %s' % self.hname)
         if self.outcome.startswith('true+'):
